@@ -33,7 +33,7 @@ import (
 
 type check struct{}
 
-var debugSigs bool // DEBUG-ONLY
+var debugSigs bool                // DEBUG-ONLY
 var debugCount = map[string]int{} // DEBUG-ONLY
 var debugEx = map[string]string{} // DEBUG-ONLY
 
@@ -339,7 +339,7 @@ func (check) Cases(tier string) int { return chunkCases(tier) + len(allSettings)
 func (check) Exhaustive(string) bool { return true }
 
 func (check) Rule() string {
-	return "every string of length <= 4 (thorough: <= 5) over the alphabet {- + 0 1 9 x b o _ a}, a table of boundary spellings (m-1, m, m+1, 2m+2 for every MaxIdx m in decimal/sign/0x/0X/0b/0o/legacy-octal/leading-zero/underscore form, -0, +0, 0x, 1e3, 1.0, spaces, non-ASCII digits, -2^63, ...) and 2 (thorough: 4) seed-chosen longer near-numeric strings per case, each x MaxIdx in {-5,-1,0,1,7,1024,65536} x EnableNumKeys {false,true} x position {whole key without PathSep, whole key with PathSep, first, middle, last dotted segment; thorough also twice, deep-last, middle with '/' separator} x usage {map key (NewFrom), setter name (SetInt), struct tag (reflect.StructOf, NewFrom), getter name on a prepared list+dict config (Has/Int/Remove), struct tag on Unpack into a struct}; a case = 8 strings (stride over the universe) x everything else. The last 14 cases walk the over-limit ladder m+1, 2m+2, 2^16+1, 2^20 and then (only if all of those were names) 2^31, 2^40, 2^63-1, 2^63, 2^64-1 for one (m, e) each. Non-trivial = the string contains a digit (numeric or near-numeric); distinct = distinct (position, string)."
+	return "every string of length <= 4 (thorough: <= 5) over the alphabet {- + 0 1 9 x b o _ a}, a table of boundary spellings (m-1, m, m+1, 2m+2 for every MaxIdx m in decimal/sign/0x/0X/0b/0o/legacy-octal/leading-zero/underscore form, -0, +0, 0x, 1e3, 1.0, spaces, non-ASCII digits, -2^63, ...) and 2 seed-chosen longer near-numeric strings per case, each x MaxIdx in {-5,-1,0,1,7,1024,65536} x EnableNumKeys {false,true} x position {whole key without PathSep, whole key with PathSep, first, middle, last dotted segment; thorough also twice, deep-last, middle with '/' separator} x usage {map key (NewFrom), setter name (SetInt), struct tag (reflect.StructOf, NewFrom), getter name on a prepared list+dict config (Has/Int/Remove), struct tag on Unpack into a struct}; a case = 8 strings (stride over the universe) x everything else. The last 14 cases walk the over-limit ladder m+1, 2m+2, 2^16+1, 2^20 and then (only if all of those were names) 2^31, 2^40, 2^63-1, 2^63, 2^64-1 for one (m, e) each. Non-trivial = the string contains a digit (numeric or near-numeric); distinct = distinct (position, string)."
 }
 
 func (check) Assumptions() []string {
@@ -351,7 +351,7 @@ func (check) Assumptions() []string {
 		"a dictionary entry with an arbitrary name is prepared with EnableNumKeys(true) and no PathSep and verified with HasField before it is used",
 		"the default MaxIdx (no option) is not pinned by the statement and not exercised; MaxIdx is always passed explicitly",
 		"\"\" is used as a map key only (getter/setter name \"\" with idx -1 is outside the quantifier)",
-		"cost: building a top-level list through Merge is quadratic in its length in this library (16 s at 65536), so map-key/struct-tag usages whose FIRST segment is a legitimate index above 1100 (thorough: 4096) are skipped; the same values are exercised through SetInt and nested positions",
+		"cost: building a top-level list through Merge is quadratic in its length in this library (16 s at 65536), so map-key/struct-tag usages whose FIRST segment is a legitimate index above 1024 are skipped, and a legitimate index above 300 (thorough: 1024) that is not at a boundary (m-1, m) is only exercised as a whole-key setter/getter name; the same values are exercised through SetInt and nested positions",
 		"safety: the grow hook aborts (panics inside harness.Safe) any list growth beyond what the oracle allows for the operation, so a wrongly accepted index never allocates",
 	}
 }
@@ -1369,10 +1369,10 @@ func (w *world) runString(s string, sts []setting) (wrongIndex bool) {
 // seed-chosen longer near-numeric strings
 // ---------------------------------------------------------------------------
 
-var interesting = []int64{0, 1, 2, 3, 6, 7, 8, 9, 10, 15, 16, 17, 63, 64, 255, 256, 1025, 2050, -1, -2, -4, -5, -6, -1024}
+var interesting = []int64{0, 1, 2, 3, 6, 7, 8, 9, 10, 15, 16, 17, 63, 64, -1, -2, -4, -5, -6, -1024}
 
 // rare: every legitimate index above a few hundred costs that many slots
-var interestingLarge = []int64{1023, 1024, 65535, 65536, 65537, 131074, 4095, 40000, -65536}
+var interestingLarge = []int64{255, 256, 1023, 1024, 1025, 2050, 65535, 65536, 65537, 131074, 4095, 40000, -65536}
 
 const mutAlphabet = "-+0123456789xXbBoO_aAfF. e"
 
@@ -1382,7 +1382,7 @@ func randomString(r *rand.Rand) string {
 	case k == 0:
 		v = interestingLarge[r.Intn(len(interestingLarge))]
 	case k < 16:
-		v = int64(r.Intn(300))
+		v = int64(r.Intn(70))
 		if r.Intn(6) == 0 {
 			v = -v
 		}
@@ -1430,9 +1430,9 @@ func (check) Run(seed int64, tier string, idx int, verbose bool) harness.Result 
 	w.p = pNames[r.Intn(len(pNames))]
 	w.q = qNames[r.Intn(len(qNames))]
 	w.val = int64(1 + r.Intn(5)) // never 7 (nameValue) and never >= 100
-	w.capTop, w.capInterior = 1100, 300
+	w.capTop, w.capInterior = 1024, 300
 	if tier == "thorough" {
-		w.capTop, w.capInterior = 1100, 1100
+		w.capTop, w.capInterior = 1024, 1024
 	}
 	w.sigSeen = map[string]int{}
 	w.arm(1 << 17)
@@ -1454,11 +1454,7 @@ func (w *world) runChunk(idx, nChunks int) {
 	for i := idx; i < total; i += nChunks {
 		strs = append(strs, universeString(w.tier, i))
 	}
-	extra := 2
-	if w.tier == "thorough" {
-		extra = 4
-	}
-	for i := 0; i < extra; i++ {
+	for i := 0; i < 2; i++ {
 		strs = append(strs, randomString(w.r))
 	}
 	if idx < 2 {
